@@ -1,9 +1,11 @@
 import CoapVerif.Spec.Oscore
 import CoapVerif.Spec.OscoreSeq
 import CoapVerif.Spec.OscoreCtx
+import CoapVerif.Spec.OscoreCtxSeq
 import CoapVerif.Model.Oscore
 import CoapVerif.Model.OscoreAssoc
 import CoapVerif.Model.OscoreCtx
+import CoapVerif.Model.OscoreSrv
 import CoapVerif.Driver.Codec
 /- Line-protocol driver for the OSCORE property C14: S's protected bytes / verdicts for the same
    inputs the C harness gets (harness/oscore.c), and M's helper outputs. -/
@@ -12,6 +14,8 @@ import CoapVerif.Driver.Codec
 -- DRIVER-OPS: oseq => Coap.Driver.Oscore.oseqStep
 -- DRIVER-OPS: oscm => Coap.Driver.Oscore.oscmStep
 -- DRIVER-OPS: findctx => Coap.Driver.Oscore.findctxStep
+-- DRIVER-OPS: oinj => Coap.Driver.Oscore.oinjStep
+-- DRIVER-OPS: oscx => Coap.Driver.Oscore.oscxStep
 -- DRIVER-OPS: optenc => Coap.Driver.Oscore.optencStep
 -- DRIVER-OPS: optdec => Coap.Driver.Oscore.optdecStep
 -- DRIVER-OPS: aad => Coap.Driver.Oscore.aadStep
@@ -359,6 +363,176 @@ with `oscore_find_context` -/
 def findctxStep (w : List String) : String :=
   let (m, s, cs) := findctxSteps (w.length + 1) [] "" "" w
   "M fc" ++ m ++ " store=" ++ showStore cs ++ " | S fc" ++ s
+
+/-! ### `oinj`: outer options added to a protected datagram on the path (S: §8.2 / §8.4 step 1 — class E outer options are
+discarded, `mergeOpts`; M: the first loop of `coap_oscore_decrypt_pdu`, `decryptSkips` / `decryptMerge`) -/
+
+/-- `60:7fff,12:-,2048:01` -/
+def injsOf (s : String) : Option (List (Nat × Bytes)) :=
+  (s.splitOn ",").mapM fun it =>
+    match it.splitOn ":" with
+    | [n, v] => do
+      let n ← n.toNat?
+      let v ← bytesOfHex (if v = "" then "-" else v)
+      pure (n, v)
+    | _ => none
+
+/-- `oinj <C: 5> <S: 5> <cseq> <sseq> <newmid|-1> <req> <resp|-> <piv 0|1> <q|r> <num:hex[,num:hex]*>` -/
+def oinjStep (w : List String) : String :=
+  match paramsOf (w.take 5), paramsOf ((w.drop 5).take 5), w.drop 10 with
+  | some pc, some ps, [cseq, sseq, newmid, req, resp, f, which, inj] =>
+    match cseq.toNat?, sseq.toNat?, (bytesOfHex req).bind (Spec.decode .udp), injsOf inj with
+    | some cseq, some sseq, some rm, some injs =>
+      let cl := derive pc
+      let sv := derive ps
+      match protectRequest aes128 cl rm cseq with
+      | none => "setup-fail"
+      | some (pm, cb) =>
+        -- (protected message, recipient's context, its binding, the original message, Partial IV the Observe value comes from)
+        let target : Option (Msg × Ctx × Option (Bytes × Binding) × Msg × Bytes) :=
+          if which = "q" then some (pm, sv, none, rm, []) else
+          match deliver sv none (encodeUdp pm), (bytesOfHex resp).bind (Spec.decode .udp) with
+          | some (.ok _ b), some rsp =>
+            let fresh := f = "1" || hasObserve rsp.opts
+            (protectResponse aes128 sv b rsp (if fresh then some sseq else none) (sepMidOf newmid)).map
+              fun p => (p, cl, some (rm.token, cb), rsp, if fresh then pivBytes sseq else pivBytes cseq)
+          | _, _ => none
+        match target with
+        | none => "setup-fail"
+        | some (tm, c, bind, orig, pivObs) =>
+          let opts' := injs.foldl M.Oscore.insertOpt tm.opts
+          let dg := encodeUdp { tm with opts := opts' }
+          let isReq := which = "q"
+          let mopts := M.Oscore.decryptMerge isReq pivObs opts' (innerOpts isReq orig.opts)
+          "M opts=" ++ Coap.Driver.showOpts mopts ++ " | S dg=" ++ hexOrDash dg ++ " u=" ++ showDelivery (deliver c bind dg)
+    | _, _, _, _ => "bad-input"
+  | _, _, _ => "bad-op"
+
+/-! ### `oscx`: several clients (contexts) behind ONE server session (S: Spec/OscoreCtxSeq.lean, transcript; M:
+Model/OscoreSrv.lean + Model/OscoreCtx.lean, trace of the server session) -/
+
+structure XSt where
+  cseqs : List Nat                 -- Sender Sequence Number per client
+  sseqs : List Nat                 -- Sender Sequence Number per server context
+  csts : List Store                -- S: the clients' bindings
+  sst : CStore                     -- S: the server's token ↦ (binding, context)
+  srv : M.Oscore.Srv               -- M: session->recipient_ctx and session->associations of the server
+  out : String
+  tr : String
+
+def showSAssoc (a : Option M.Oscore.SAssoc) : String :=
+  match a with
+  | none => "none"
+  | some a => showPos (some a.rcp) ++ "," ++ hexOrDash a.piv ++ "," ++ (if a.isObserve then "1" else "0")
+
+def clientPairs : Nat → List String → Option (List (Nat × Nat × Nat) × List String)
+  | 0, w => some ([], w)
+  | n + 1, ij :: cseq :: rest => do
+    let (i, j) ← match ij.splitOn "." with
+      | [i, j] => do pure ((← i.toNat?), (← j.toNat?))
+      | _ => none
+    let cseq ← cseq.toNat?
+    let (cs, rest') ← clientPairs n rest
+    pure ((i, j, cseq) :: cs, rest')
+  | _, _ => none
+
+def oscxSteps (cls : List Ctx) (pairs : List (Nat × Nat × Ctx)) (store : M.Oscore.CtxStore) (newmid : Option Nat) :
+    (fuel : Nat) → XSt → List String → XSt
+  | 0, st, _ => st
+  | _, st, [] => st
+  | fuel + 1, st, "q" :: k :: req :: how :: rest =>
+    match k.toNat?.bind (fun k => (cls[k]?).map fun c => (k, c)), (bytesOfHex req).bind (Spec.decode .udp) with
+    | some (k, cl), some rm =>
+      match clientSend aes128 cl (st.csts.getD k []) rm (st.cseqs.getD k 0) with
+      | none => oscxSteps cls pairs store newmid fuel { st with out := st.out ++ " req=fail" } rest
+      | some (pm, cst') =>
+        let dg := encodeUdp pm
+        let st1 := { st with cseqs := st.cseqs.set k (st.cseqs.getD k 0 + 1), csts := st.csts.set k cst',
+                             out := st.out ++ " req=" ++ hexOrDash dg }
+        let st2 :=
+          if how.startsWith "d" then
+            match Spec.decode .udp dg with
+            | none => { st1 with out := st1.out ++ " ureq=unparsable",
+                                 tr := st1.tr ++ " s:" ++ showPos st1.srv.rcp ++ " a:" ++ showSAssoc (M.Oscore.findSAssoc st1.srv.as rm.token) }
+            | some m =>
+              let (v, sst') := serverRecvAny aes128 (pairs.map (·.2.2)) st1.sst m
+              -- M: the position `oscore_find_context` returns, then the association part of coap_oscore_decrypt_pdu
+              let cose := (oscoreValue m.opts).bind fun ov => match M.Oscore.decodeOptionValue ov with | .ok c => some c | _ => none
+              let pos := cose.bind fun c => c.kid.bind fun kid => M.Oscore.findContext store kid (some (c.kidctx.getD [])) none
+              let (verified, observe) := match v with
+                | .ok x _ => (true, hasObserve x.opts)
+                | _ => (false, false)
+              let srv' := match cose, pos with
+                | some c, some p => M.Oscore.srvDecrypt st1.srv m.token p [] [] c.piv verified observe
+                | _, _ => st1.srv
+              { st1 with sst := sst', srv := srv', out := st1.out ++ " ureq=" ++ showVerdict v,
+                         tr := st1.tr ++ " s:" ++ showPos srv'.rcp ++ " a:" ++ showSAssoc (M.Oscore.findSAssoc srv'.as m.token) }
+          else st1
+        oscxSteps cls pairs store newmid fuel st2 rest
+    | some _, none => { st with out := st.out ++ " req=bad-input" }
+    | none, _ => { st with out := st.out ++ " bad-step" }
+  | fuel + 1, st, "r" :: k :: resp :: f :: how :: rest =>
+    match k.toNat?.bind (fun k => (cls[k]?).map fun c => (k, c)), (bytesOfHex resp).bind (Spec.decode .udp) with
+    | some (k, cl), some rm =>
+      let fresh := f = "1" || hasObserve rm.opts
+      -- S: the context bound to the token (D14.19) and ITS Sender Sequence Number
+      let ci : Option Nat := (cFind st.sst rm.token).bind fun e => (pairs.find? fun p => p.2.2 = e.ctx).map (·.1)
+      let seq := ci.map fun i => st.sseqs.getD i 0
+      -- M: association->recipient_ctx selects the Sender Context; the association goes unless is_observe
+      let mctx := M.Oscore.srvResponseCtx st.srv rm.token
+      match serverSendAny aes128 st.sst rm (if fresh then seq else none) newmid with
+      | none =>
+        oscxSteps cls pairs store newmid fuel
+          { st with out := st.out ++ " resp=fail",
+                    tr := st.tr ++ " p:- a:" ++ showSAssoc (M.Oscore.findSAssoc st.srv.as rm.token) } rest
+      | some (pm, sst') =>
+        let dg := encodeUdp pm
+        let srv' := M.Oscore.srvProtect st.srv rm.token
+        let st1 := { st with sseqs := (match ci with
+                                        | some i => if fresh then st.sseqs.set i (st.sseqs.getD i 0 + 1) else st.sseqs
+                                        | none => st.sseqs),
+                             sst := sst', srv := srv', out := st.out ++ " resp=" ++ hexOrDash dg,
+                             tr := st.tr ++ " p:" ++ (match mctx with
+                                                      | some p => if fresh then toString p.1 else "-"
+                                                      | none => "-") ++
+                                   " a:" ++ showSAssoc (M.Oscore.findSAssoc srv'.as rm.token) }
+        let st2 :=
+          if how = "d" then
+            match Spec.decode .udp dg with
+            | none => { st1 with out := st1.out ++ " uresp=unparsable" }
+            | some m =>
+              let (v, cst') := clientRecv aes128 cl (st1.csts.getD k []) m
+              { st1 with csts := st1.csts.set k cst', out := st1.out ++ " uresp=" ++ showVerdict v }
+          else st1
+        oscxSteps cls pairs store newmid fuel st2 rest
+    | some _, none => { st with out := st.out ++ " resp=bad-input" }
+    | none, _ => { st with out := st.out ++ " bad-step" }
+  | _, st, _ => { st with out := st.out ++ " bad-step" }
+
+/-- `oscx <sseq> <newmid|-1> <nS> {<secret> <salt> <idctx> <sid> <rid[,rid]*>}*nS <nC> {<i>.<j> <cseq>}*nC
+{ q <k> <req> <d|l> | r <k> <resp> <piv 0|1> <d|l> }*` -/
+def oscxStep (w : List String) : String :=
+  match w with
+  | sseq :: newmid :: ns :: rest0 =>
+    match sseq.toNat?, ns.toNat?.bind (fun n => serverEntries n rest0) with
+    | some sseq, some (es, nc :: rest1) =>
+      match nc.toNat?.bind (fun n => clientPairs n rest1) with
+      | some (cps, steps) =>
+        let pairs : List (Nat × Nat × Ctx) :=
+          (es.zipIdx.flatMap fun (e, i) => e.2.zipIdx.map fun (rid, j) => (i, j, derive { e.1 with rid := rid }))
+        let store : Option M.Oscore.CtxStore :=
+          es.foldl (fun st e => st.bind fun cs => M.Oscore.deriveCtx cs e.1.idctx e.2) (some [])
+        let cls : Option (List Ctx) := cps.mapM fun (i, j, _) =>
+          (es[i]?).bind fun e => (e.2[j]?).map fun rid => derive { e.1 with sid := rid, rid := e.1.sid }
+        match store, cls with
+        | some store, some cls =>
+          let st := oscxSteps cls pairs store (sepMidOf newmid) (steps.length + 1)
+            ⟨cps.map (·.2.2), es.map (fun _ => sseq), cps.map (fun _ => []), [], ⟨none, []⟩, "", ""⟩ steps
+          "M" ++ st.tr ++ " | S seq" ++ st.out
+        | _, _ => "bad-input"
+      | none => "bad-input"
+    | _, _ => "bad-input"
+  | _ => "bad-op"
 
 def fnv (s : String) : UInt32 :=
   s.toUTF8.toList.foldl (fun h b => (h ^^^ b.toUInt32) * 16777619) 2166136261
